@@ -23,7 +23,9 @@ Accepted grammar (anything else raises Untranslatable naming line and construct)
              generator (lazy, Python's short-circuit order), a list comprehension (eager) or a tuple, on a
              sequence of known length (tuple / list display, a strain, a modulus key): unrolled into || / &&
   integers   literals, + - * unary -, a << b with b a boolean or a provably non-negative term
-             (1 << a << b, 1 << (x + y + z)), int(bool), int(x), booleans used as integers; a property body
+             (1 << a << b, 1 << (x + y + z), 1 << sum((b1, b2, b3))), int(bool), int(x), booleans used as
+             integers, sum(...) of integers / booleans over a tuple / list / comprehension on a sequence of known
+             length (optional integer start); a property body
              that is an if-chain over total scalar results is folded into one (if c then a else b) term
   data       VOIGT_TO_STANDARD[x] (KeyError = None), STANDARD_TO_VOIGT[x], tuples / lists with *splices,
              x[const], fields and properties of the two classes, tuple(x), list(x), len(x),
@@ -412,7 +414,7 @@ class VOpaque(V):           # bound name whose value is outside the grammar: any
 
 
 TYPE_NAMES = ("int", "str", "bool", "tuple", "list", "dict", "set", "float")
-BUILTINS = TYPE_NAMES + ("type", "isinstance", "len", "sorted", "map", "any", "all")
+BUILTINS = TYPE_NAMES + ("type", "isinstance", "len", "sorted", "map", "any", "all", "sum")
 MODELLED = ("StrainRepresentation", "ModulusRepresentation")
 INTERFACE = {("StrainRepresentation", "from_voigt"): ("strain_from_voigt", "S"),
              ("StrainRepresentation", "from_standard"): ("strain_from_standard", "S"),
@@ -798,11 +800,11 @@ class Ev:
         if isinstance(e, ast.Call):
             if any(k.arg is None for k in e.keywords):
                 bail(e, "**kwargs")
-            if isinstance(e.func, ast.Name) and e.func.id in ("any", "all") and not e.keywords and len(e.args) == 1 \
+            if isinstance(e.func, ast.Name) and e.func.id in ("any", "all", "sum") and not e.keywords and len(e.args) == 1 \
                     and isinstance(e.args[0], (ast.GeneratorExp, ast.ListComp)):
                 f = self.lookup(e.func.id, env, e.func)
                 if isinstance(f, VBuiltin) and f.name == e.func.id:
-                    return self.ev_anyall(f.name == "any", e.args[0], env, e)
+                    return self.ev_anyall({"any": True, "all": False, "sum": None}[f.name], e.args[0], env, e)
             return bind(self.ev(e.func, env), lambda f: bind(self.ev_seq(e.args, env), lambda args: bind(
                 self.ev_seq([k.value for k in e.keywords], env),
                 lambda kv: self.apply(f, args, dict(zip([k.arg for k in e.keywords], kv)), e))))
@@ -1024,9 +1026,19 @@ class Ev:
             return ("if", tb, r, leaf(VBool(("bc", False))))
         return go(0)
 
+    def sum_(self, items, start, node):
+        """sum of integers / booleans: ((start + x0) + x1) + ...   (a 0 start is dropped: 0 + x = x)"""
+        acc = start
+        for x in items:
+            t = self.as_z(x, node)
+            if "longlen" in (t[0], acc[0]):
+                bail(node, "sum over a length")
+            acc = t if acc == zc(0) else mk_arith("add", acc, t)
+        return VInt(acc)
+
     def ev_anyall(self, is_any, comp, env, node):
         """any(f(x) for x in <sequence of known length>) unrolled; a generator is lazy (elements after the deciding
-        one are not evaluated), a list comprehension evaluates every element first"""
+        one are not evaluated), a list comprehension evaluates every element first; is_any None: sum(...)"""
         if len(comp.generators) != 1:
             bail(comp, "comprehension")
         g = comp.generators[0]
@@ -1041,11 +1053,13 @@ class Ev:
             def unroll(items):
                 def elem(idx):
                     return self.ev(comp.elt, dict(env, **{x: items[idx]}))
-                if isinstance(comp, ast.GeneratorExp):
+                if isinstance(comp, ast.GeneratorExp) and is_any is not None:
                     return self.anyall_fold(is_any, len(items), elem, node)
 
                 def eager(idx, acc):
                     if idx == len(items):
+                        if is_any is None:              # sum(...) consumes every element, in order
+                            return leaf(self.sum_(acc, zc(0), node))
                         return self.anyall_fold(is_any, len(acc), lambda k: leaf(acc[k]), node)
                     return bind(elem(idx), lambda v: eager(idx + 1, acc + [v]))
                 return eager(0, [])
@@ -1214,6 +1228,10 @@ class Ev:
             return bind(self.items_of(args[0], node), lambda items: leaf(VTuple(items)))
         if name == "map" and len(args) == 2:
             return self.map_conv(args[0], args[1], node)
+        if name == "sum" and len(args) in (1, 2) and not isinstance(args[0], (VList, VLong)) \
+                and (len(args) == 1 or isinstance(args[1], (VInt, VBool))):
+            start = self.as_z(args[1], node) if len(args) == 2 else zc(0)
+            return bind(self.items_of(args[0], node), lambda items: leaf(self.sum_(items, start, node)))
         if name in ("any", "all") and len(args) == 1 and not isinstance(args[0], (VList, VLong)):
             return bind(self.items_of(args[0], node), lambda items: self.anyall_fold(
                 name == "any", len(items), lambda k: leaf(items[k]), node))
